@@ -962,6 +962,35 @@ def _check_capacity(repo, r4, schemes):
                            "DP17: p = ceil(l / s) divides by s = %s, which is 0 for a one-posting database (l = 0): ZeroDivisionError" % show(st_, maxdepth=4)[:80], sdefs[0].stmt)
                 lv = [d for d in ft.defs if d.var == "levels" and d.kind == "assign"]
                 r4.require(bool(lv), enc, "DP17 levels list", "DP17: the list of stored levels vanished")
+            check_dp17_level_choice(repo, r4, s)
+
+
+def check_dp17_level_choice(repo, r4, s):
+    """The level i for a list is the smallest stored level with L * 2^i >= |D(w)|: the list length takes part in that comparison as it is.
+    Dividing / shifting the length first (|D(w)| // L) rounds away the remainder, the list is then cut into more than L chunks and the
+    search, which probes L counters, silently drops the rest."""
+    fa = s.cls.methods.get("_find_adjacent_i")
+    if fa is None:
+        r4.fail(s.structures.rel, s.name, 0, "DP17 level choice", "DP17: _find_adjacent_i vanished")
+        return
+    n = fa.params[1]
+    from ..model import inline_locals
+    bad = None
+    for x in ast.walk(fa.node):
+        if isinstance(x, ast.BinOp) and isinstance(x.op, (ast.FloorDiv, ast.Div, ast.RShift, ast.Mod)):
+            l_ = inline_locals(fa.node, x.left)
+            if any(isinstance(y, ast.Name) and y.id == n for y in ast.walk(l_)):
+                bad = x
+    compared = any(isinstance(c, ast.Compare) and any(isinstance(y, ast.Name) and y.id == n for o in [c.left] + list(c.comparators) for y in ast.walk(inline_locals(fa.node, o)))
+                   for c in ast.walk(fa.node)) or any(
+        isinstance(c, ast.Call) and (dotted(c.func) or "").startswith("bisect") and any(isinstance(y, ast.Name) and y.id == n for a in c.args for y in ast.walk(inline_locals(fa.node, a)))
+        for c in ast.walk(fa.node))
+    if bad is not None:
+        r4.fail_fn(fa, bad, "DP17 list length rounded",
+                   "DP17._find_adjacent_i computes %s: the list length is rounded before the level is chosen, so a list of L*2^i + r postings (0 < r < L) gets level i, is cut into "
+                   "more than L chunks and the search (which probes counters 1..L) silently drops identifiers" % short(bad))
+    else:
+        r4.require(compared, fa, "DP17 level chosen from the list length", "DP17._find_adjacent_i no longer compares the list length with L * 2^i")
 
 
 # ----------------------------------------------------------------------------- self-test variants
